@@ -108,6 +108,20 @@ Theorem C20_cache_final_complete : forall ps sched s i p,
     cresult (crun sched s (cstart ps)) i = Some CFinal.
 Proof. exact cache_final_complete. Qed.
 
+(* the cache is a DICTIONARY of slots and every thread works on the slot of its own key: seen from any key,
+   the run of the whole dictionary under any schedule IS the single-slot run of that key's threads ... *)
+Theorem C20_cache_keys_independent : forall sched m ts k,
+    crun sched (m k) (kproj k ts)
+    = (fst (krun sched m ts) k, kproj k (snd (krun sched m ts))).
+Proof. exact krun_project. Qed.
+
+(* ... hence the single-slot theorem holds for the whole cache: any keys, any threads, any schedule *)
+Theorem C20_cache_keyed_final_safe : forall kps sched m i r,
+    forallb (fun kp : nat * cprog => stores_final (snd kp)) kps = true ->
+    (forall k, slot_ok (m k)) ->
+    kresult (krun sched m (kstart kps)) i = Some r -> r = CFinal.
+Proof. exact cache_keyed_final_safe. Qed.
+
 (* `calone` is the small-step semantics with only that thread scheduled *)
 Theorem C20_cache_alone_is_run : forall p s,
     crun (repeat 0 (S (length p))) s [Running p] = (fst (calone s p), [Done (snd (calone s p))]).
@@ -151,6 +165,8 @@ Print Assumptions C20_classified_racy.
 Print Assumptions C20_cache_final_safe.
 Print Assumptions C20_cache_final_alone.
 Print Assumptions C20_cache_final_complete.
+Print Assumptions C20_cache_keys_independent.
+Print Assumptions C20_cache_keyed_final_safe.
 Print Assumptions C20_cache_alone_is_run.
 Print Assumptions C20_cache_placeholder_witness.
 Print Assumptions C20_cache_classified_safe.
@@ -199,3 +215,12 @@ Example C20_cache_witness_nonvacuous :
   cache_classify [p] = CacheRacy /\ snd (calone None p) = CFinal /\
   cresult (crun (placeholder_sched [CLookup] []) None (cstart [p; p])) 1 = Some (COther 263).
 Proof. vm_compute. repeat split; reflexivity. Qed.
+
+(* many keys, non-vacuity: two threads on key 1 (one of them reserving a placeholder) and one thread on key 2:
+   the placeholder reaches the second thread of key 1 and never the thread of key 2 *)
+Example C20_cache_keys_nonvacuous :
+  let p := [CLookup; CLocal; CStore CFinal] in
+  let bad := [CLookup; CStore (COther 9); CStore CFinal] in
+  kresult (krun [0; 0; 2; 1; 2; 2; 2] (fun _ => None) (kstart [(1, bad); (1, p); (2, p)])) 1 = Some (COther 9) /\
+  kresult (krun [0; 0; 2; 1; 2; 2; 2] (fun _ => None) (kstart [(1, bad); (1, p); (2, p)])) 2 = Some CFinal.
+Proof. vm_compute. split; reflexivity. Qed.
